@@ -1,6 +1,6 @@
 (** Non-vacuity for C12: readers satisfying the hypotheses, and concrete runs of the model. *)
 From Coq Require Import NArith List Lia.
-From FF Require Import Lib.Word Gen.Consts_device_acpi_aml Aml.Stream Aml.Lex Aml.LexProofs Aml.Tree Aml.Parser.
+From FF Require Import Lib.Word Gen.Consts_device_acpi_aml Aml.Stream Aml.Lex Aml.LexProofs Aml.Tree Aml.Parser Aml.ParserProofs Aml.ParserProofsTop.
 Import ListNotations.
 Local Open Scope N_scope.
 
@@ -41,3 +41,14 @@ Proof. vm_compute. reflexivity. Qed.
 Example C12_valid_parses :
   fst (fst (load [[0x14; 0x0b; 0x4d; 0x54; 0x48; 0x30; 0x02; 0xa4; 0x72; 0x68; 0x69; 0x00; 0x08; 0x58; 0x58; 0x58; 0x58; 0x4d; 0x54; 0x48; 0x30; 0x01; 0x0a; 0x02]])) = 0.
 Proof. vm_compute. reflexivity. Qed.
+
+(** hypotheses of the whole-parser theorems are satisfiable, and the conclusion is not vacuous: a loaded program
+    stores non-trivial slices *)
+Example C12_payload_nonvacuous :
+  Forall payload_ok [[0x08; 0x41; 0x42; 0x43; 0x44; 0x0d; 0x61; 0x62; 0x00]].
+Proof. repeat constructor; vm_compute; discriminate. Qed.
+
+Example C12_pool_has_slices :
+  let '(class, t, imgs) := load [[0x08; 0x41; 0x42; 0x43; 0x44; 0x0d; 0x61; 0x62; 0x00]] in
+  class = 0 /\ existsb (fun o => match o_value o with Some (VBytes 0 (mkSlice (Some 42) 2)) => true | _ => false end) (t_pool t) = true.
+Proof. vm_compute. split; reflexivity. Qed.
